@@ -76,6 +76,10 @@ def run(rep, ctx):
     with rep.guard("R12.5"):
         from .. import symrules as _SR
         _SR.reset_covers_caches(rep, ctx.model, "R12.5")
+    rep.rule("R12.6", "cached systems handed out by the analyzer are never modified afterwards")
+    with rep.guard("R12.6"):
+        from .. import symrules as _SR3
+        _SR3.handed_out_objects_not_mutated(rep, ctx.model, "R12.6")
     rep.floor("R12.1", 230)
     rep.floor("R12.2", 5)
     rep.floor("R12.3", 8)
